@@ -160,7 +160,12 @@ def do_check(prop, tier, seed, a, t0):
     # cross-checks the verifier on the unchanged tree
     sweep = None
     if proof is not None and not a.no_bounded:
+        # every function under contract in this run (the unit and the callees whose contracts it relies on)
         targets = [k for k in spec['obligations'] if not k.startswith('lemma:')]
+        for f in proof.get('functions', []):
+            nm = f.get('name', '')
+            if nm.startswith('penman.') and ':' in nm and ' ' not in nm and nm not in targets:
+                targets.append(nm)
         sweep = run_sweep(targets, 40 if tier == 'quick' else 600, seed, a.repo)
         for f in sweep.get('failures', []):
             violations.append({'name': '%s:%s' % (f['target'].split(':')[1], f['clause']), 'kind': 'sweep',
